@@ -194,6 +194,7 @@ def finish(ctx, level, level_note="", checker_cmd=None):
 
     lines = []
     violations = 0
+    solid = 0
     matched = []
     for o in failed:
         k = next((k for k in known if _kmatch(k["obligation"], o.name)), None)
@@ -204,6 +205,7 @@ def finish(ctx, level, level_note="", checker_cmd=None):
         path = write_replay(ctx.prop, o, ctx.module_name)
         reproduced = bool(o.native and o.native.get("reproduced"))
         violations += 1
+        solid += 1 if reproduced else 0
         lines.append("VIOLATION property=%s replay=%s%s" % (
             ctx.prop, path, "" if reproduced else " no-failing-input-found"))
         lines.append("  obligation %s [%s] failed (%s): %s" % (o.name, o.kind, o.backend, o.detail[:300]))
@@ -215,6 +217,8 @@ def finish(ctx, level, level_note="", checker_cmd=None):
     if n_ob == 0:
         lines.append("CHECKER-ERROR property=%s: zero obligations generated (vacuous run)" % ctx.prop)
         code = 3
+    elif solid:
+        code = 1          # a violation replayed on the real code stands even if the engine tripped afterwards
     elif errors:
         code = 3
     elif violations:
